@@ -116,10 +116,11 @@ func (p *ClonePool) ExtractPendingRelease() []Value {
 func (p *ClonePool) ExtractAllMarkedFinalize() []Value {
 	p.mx.Lock()
 
-	// Disregard the pendingFinalize list as all values are still present in the
-	// weakrefs map.
+	// The values in the pendingFinalize list are already flagged as finalized
+	// in the register (see goFinalizer) although their finalizer has not run
+	// yet, so they must be taken from that list.
+	marked := p.pendingFinalize
 	p.pendingFinalize = nil
-	var marked sortablePendingClones
 	for k, c := range p.cloneRegister {
 		if !c.hasFlag(wrFinalized) {
 			c.setFlag(wrFinalized)
